@@ -427,6 +427,23 @@ def unit(u, res):
                     res.sat.append(dict(key=role(name, A, True), builtin=name, arg=a_c, overflow_checks=ofc, got='panic: %s' % o.value,
                                         witness='%s(%s) [overflow checks %s]' % (name, a_c, 'on' if ofc else 'off')))
                 continue
+            # engine validation on a seed-chosen sample of paths (builtins whose value does not involve an uninterpreted symbol)
+            if o.kind == 'return' and name in EXACT_BUILTINS and pr.rng.random() < TRACE_RATE[0]:
+                fe_, m_ = pr.feasible(o.pc)
+                if fe_:
+                    a_c = fix_value(spec_concrete(A, m_))
+                    pred = render_result(meta, o.value, m_)
+                    has_float = 'Float' in repr(a_c)
+                    text = replay.case_text('c', 'eval_with_context', '%s(v)' % name if a_c[0] != 'Empty' else '%s()' % name, vars=[('v', a_c)] if a_c[0] != 'Empty' else [])
+                    nat = replay.run_cases(text, 'dev' if ofc else 'release')['c'].get('result')
+                    if name == 'str::from' and has_float:
+                        okp = True          # float rendering is opaque in the prediction
+                    else:
+                        okp = nat is not None and ((pred[0] == 'Ok' and nat[0] == 'Ok' and norm_val(pred[1]) == norm_val(nat[1])) or (pred[0] == 'Err' and nat[0] == 'Err' and pred[1] == nat[1]))
+                    if okp:
+                        res.traces_validated += 1
+                    else:
+                        res.inconclusive.append('engine validation: %s(%s) predicted %s, native %s' % (name, a_c, pred, nat))
             region = None
             if refcases is None:
                 claim = z3.BoolVal(o.kind == 'return' and o.value.variant == 1 and error_name(meta, o.value.fields[0]) == 'FunctionIdentifierNotFound')
@@ -590,8 +607,8 @@ def deep_shapes(tier):
 
 
 LARGE = {
-    'min': ['T[I,I,I,I]', 'T[F,I,F,I]', 'T[I,F,I,F,I]', 'T[F,F,F,F,F]', 'T[I,I,I,I,I,I]'],
-    'max': ['T[I,I,I,I]', 'T[F,I,F,I]', 'T[I,F,I,F,I]', 'T[F,F,F,F,F]', 'T[I,I,I,I,I,I]'],
+    'min': ['T[I,I,I,I]', 'T[F,F,F,F,F]', 'T[I,I,I,I,I,I]', 'T[I,I,I,B]', 'T[F,F,F,F,S1]'],
+    'max': ['T[I,I,I,I]', 'T[F,F,F,F,F]', 'T[I,I,I,I,I,I]', 'T[I,I,I,B]', 'T[F,F,F,F,S1]'],
     'contains': ['T[T[I,I,I,I],I]', 'T[T[S1,I,F,B,S1],S1]', 'T[T[I,I,I,I,I],T0]'],
     'contains_any': ['T[T[I,S1,I,S1],T[S1,I,S1]]', 'T[T[I,I,I,I],T[I,I,I,T0]]', 'T[T[I,I],T[I,I,I,I,E]]'],
     'len': ['S5', 'T[I,I,I,I,I]', 'S4'],
@@ -603,9 +620,25 @@ LARGE = {
 }
 
 
+EXACT_BUILTINS = ['floor', 'round', 'ceil', 'math::is_nan', 'math::is_finite', 'math::is_infinite', 'math::is_normal', 'math::abs', 'typeof', 'min', 'max', 'if', 'contains',
+                  'contains_any', 'len', 'str::substring', 'bitand', 'bitor', 'bitxor', 'bitnot', 'shl', 'shr', 'str::from']
+TRACE_RATE = [0.005]
+
+
+def norm_val(v):
+    if isinstance(v, (list, tuple)):
+        if len(v) == 2 and v[0] == 'Tuple':
+            return ('Tuple', tuple(norm_val(x) for x in v[1]))
+        return tuple(norm_val(x) for x in v)
+    return v
+
+
 def make_units(tier, seed, mode):
-    timeout_ms = 60000 if tier == 'quick' else 600000
+    # the mixed int/float min/max obligations are the heaviest queries of the whole framework (FP conversion of 64-bit integers): 5-40 s each on an
+    # idle machine, several times that under load -- hence the generous per-query cap (a timeout is reported as inconclusive, never as success)
+    timeout_ms = 300000 if tier == 'quick' else 900000
     cvc5_rate = 0.005 if tier == 'quick' else 0.05
+    TRACE_RATE[0] = 0.005 if tier == 'quick' else 0.05
     shapes = arg_shapes(tier)
     units = []
     names = BUILTINS + (NOT_BUILTIN if mode == 'c10' else [])
